@@ -24,14 +24,32 @@ ASSUMPTIONS = []
 BUDGET = {"quick": 240, "thorough": 2400}
 
 
-def change_origin_at(rng, spec):
-    pos = list(zoo.spec_positions(spec))
+def fqn_twin(rng, o):
+    """an origin that is != o but has the same fqn (other class, or same indexes with other line/column)"""
+    from pyoak.origin import (EMPTY_CODE_RANGE, CodeOrigin, CodePoint, CodeRange, GeneratedCodeOrigin, MultiOrigin)
+    if isinstance(o, GeneratedCodeOrigin):
+        return CodeOrigin(o.source, EMPTY_CODE_RANGE)
+    if isinstance(o, CodeOrigin):
+        r = o.position
+        if r == EMPTY_CODE_RANGE and rng.random() < 0.5:
+            return GeneratedCodeOrigin(o.source)
+        return CodeOrigin(o.source, CodeRange(CodePoint(r.start.index, r.start.line + 1, r.start.column),
+                                              CodePoint(r.end.index, r.end.line + 1, r.end.column)))
+    if isinstance(o, MultiOrigin):
+        return MultiOrigin([fqn_twin(rng, o.origins[0]) or o.origins[0]] + list(o.origins[1:]))
+    return None
+
+
+def change_origin_at(rng, spec, min_depth=0):
+    pos = [p for p in zoo.spec_positions(spec) if len(p[0]) >= min_depth] or list(zoo.spec_positions(spec))
     path, s = rng.choice(pos)
     _, c, p, k, o, key = s
-    for _ in range(10):
-        no = zoo.gen_origin(rng)
-        if not (type(no) is type(o) and no == o):
-            break
+    no = fqn_twin(rng, o) if rng.random() < 0.4 else None
+    if no is None or (type(no) is type(o) and no == o):
+        for _ in range(10):
+            no = zoo.gen_origin(rng)
+            if not (type(no) is type(o) and no == o):
+                break
     return zoo.spec_replace(spec, path, ("node", c, p, k, no, key)), len(path)
 
 
@@ -107,6 +125,45 @@ def cases(rng: random.Random, tier: str):
             oracle = f"== raised {type(e).__name__}"
         yield Case("pair:" + kind.split("@")[0].split(":")[0], dumps([A("node-eq")] + env + [[A("tree"), ta], [A("tree2"), tb]]),
                    real, zoo.size(a) >= 3, desc, oracle_fail=oracle, sig=f"eq|{kind.split('@')[0].split(':')[0]}|want={want}")
+        # histories: comparisons must not depend on earlier comparisons, on replace() keeping an id, or on
+        # ids being re-used by later nodes after garbage collection
+        if rng.random() < 0.5 and zoo.size(a) >= 3:
+            import gc
+            try:
+                s1 = fresh_keys(sa, 3 * 10**4)
+                x = zoo.build(s1)
+                _warm = (a == x), (x == a)
+                # (A) rebuild the twin with one deep origin changed, after the first twin died
+                s2, depth = change_origin_at(rng, fresh_keys(sa, 4 * 10**4), min_depth=2)
+                want2 = origins_agree(sa, s2)
+                del x
+                gc.collect()
+                y = zoo.build(s2)
+                bad = ((a == y) != want2) or ((y == a) != want2) or ((a != y) == want2)
+                yield Case("history:rebuild", None, None, True, desc + f" then twin rebuilt with an origin changed at depth {depth}",
+                           oracle_fail="== after an earlier comparison of an equal pair (ids re-used) is wrong" if bad else None,
+                           sig="eq|history|rebuild")
+                # (B) replace() a child by a content-equal one whose descendant has another origin: ids may be kept
+                kl = [(nm, coll, ns) for nm, coll, ns in zoo.kid_lists(a) if ns]
+                if kl:
+                    nm, coll, ns = rng.choice(kl)
+                    i = rng.randrange(len(ns))
+                    cs = zoo.to_spec(ns[i])
+                    cs2, d2 = change_origin_at(rng, fresh_keys(cs, 5 * 10**4), min_depth=1)
+                    want3 = origins_agree(cs, cs2)
+                    c2 = zoo.build(cs2)
+                    new = tuple(ns[:i]) + (c2,) + tuple(ns[i + 1:]) if coll else c2
+                    twin = zoo.build(fresh_keys(sa, 6 * 10**4))
+                    _warm = (a == twin)
+                    a2 = a.replace(**{nm: new})
+                    bad = ((a2 == twin) != want3) or ((twin == a2) != want3)
+                    yield Case("history:replace", None, None, True, desc + f" then a.replace({nm}=<content-equal child, origin changed at depth {d2}>)",
+                               oracle_fail="== after replace() kept the id of a compared node is wrong" if bad else None,
+                               sig="eq|history|replace")
+                    del a2, twin, c2
+            except Exception as e:  # noqa
+                yield Case("history", None, None, False, desc, oracle_fail=f"history scenario raised {type(e).__name__}: {e}",
+                           sig="eq|history|raised")
         # transitivity on a triple
         sc = fresh_keys(sa, 2 * 10**4)
         if rng.random() < 0.4:
